@@ -57,6 +57,11 @@ CLAIMED = {
          "representatives (exact), real Tempo(unique) vs the reduced-table model, PT-TEMPO(unique) through C02."),
    ref="§4 C06",
    note=TB + "keys compared exactly (code rounds to 12 decimals); mean-field TEMPO shares the backend step, no separate theorem."),
+ "C14": dict(
+   technique="Lean 4 state-machine models of call histories interpreting source-regenerated micro-op lists, with fault oracles; theorems by induction on op lists/histories; differential correspondence on real objects",
+   text="Each method object is modelled by its step counter, the log of in-place network updates (with step arguments and user-callable inputs) and its recorded results. The order of statements in every backend step and the loop conditions of the compute methods are regenerated from the source on each run and interpreted by the model. Kernel-checked theorems show for all target lists that splitting equals one call with the furthest target and reached targets are no-ops (Tempo, MeanFieldTempo, PtTebd). For all histories and all fault oracles they show the object stays in a fault-free state, so a retried call fails again or gives the no-failure result (faultSafe decided on the regenerated lists). PtTempo and GibbsTempo are proved idempotent for every compute/get history. A PtTebd restart from the exported chain continues identically when no pre-measurement control sits at the restart step. Real objects with fault-injecting wrappers at every user-call index are compared exactly with the model on step counters, call traces, time lists and outcomes.",
+   ref="§4 C14",
+   note=TB + "the LoopOrder classification tables in translate.py (which attributes hold user callables / the network); abstraction 'equal logs => equal numbers' (deterministic code); FloatModel and FloatGrid.steps_mono/gridTime_mono (dt>0); faults are exceptions raised by Hamiltonian/rates/Lindblad/field_eom callables, not bath correlations; known finding restart:PtTebd:pre-control-at-restart-step."),
  "C18": dict(
    technique="Lean 4 proof over a model regenerated from source (translator) + differential correspondence",
    text="Operand order of every control composition, the float-time->step expression, the tensor-leg wiring of both superoperator applications and the statement order of the compute_dynamics and PtTebd step loops are regenerated from the source into Lean on every run. Theorems proved for all step counts, control assignments and call histories: each control acts exactly once, at its step, before (pre) or after (post) the recorded state, first and last step included; get_controls is fully characterised, each landing call contributing exactly one factor; same-key stacks and ChainControl stacks act in insertion order; float times act at the round-half-even nearest step with explicit binary64 error bound; identity controls change nothing; PtTebd follows the same pre/post rules per site. The executable model is run against the real Control, ChainControl, compute_dynamics and PtTebd on generated schedules (every step 0..N, pre/post, int/float keys, stacks 1-3, non-trace-preserving maps, 2-3 sites) comparing all recorded states. Insertion order for int- and float-keyed controls on one step does not hold (known finding); the theorem is stack_order_partial.",
